@@ -182,6 +182,7 @@ func runEarlyLook(t *testing.T, r *vrep.Report, id int, backend string, seed int
 	h := &hist{id: id, backend: backend, seed: seed, u: u, rng: rng, keys: keyUniverse, points: splitPoints, sess: map[int]*sessState{}, r: r}
 	h.d = newDriver(u, drv, rand.New(rand.NewSource(seed^0x5eed5eed)), keyUniverse)
 	h.rd = []*uni.ClientStore{s}
+	h.rewriters = append(h.rewriters, installRewriter(s, seed, 25))
 	d := h.d
 	for _, p := range splitPoints {
 		if rng.Intn(3) == 0 {
@@ -428,6 +429,7 @@ func runEarlyLook(t *testing.T, r *vrep.Report, id int, backend string, seed int
 		return
 	}
 	h.rd = append(h.rd, fresh)
+	h.rewriters = append(h.rewriters, installRewriter(fresh, seed, 25))
 	stores := []*uni.ClientStore{s, fresh}
 	if rng.Intn(10) < 3 {
 		stores[0], stores[1] = stores[1], stores[0]
@@ -533,6 +535,7 @@ func runEarlyLook(t *testing.T, r *vrep.Report, id int, backend string, seed int
 	for _, o := range h.obs {
 		h.judge(o, eff)
 	}
+	h.countRewrites()
 	r.Count("early:histories", 1)
 	r.Count("early:histories:"+backend, 1)
 	r.Count("sessions", len(h.sess))
